@@ -74,8 +74,31 @@ def _replay_chunk(args):
     recs, opts = args
     r = _recorder()
     out = []
-    for rec in recs:
-        out.append(vmmc.replay(rec, r, **opts))
+    import signal
+
+    class _ReplayTimeout(BaseException):
+        pass
+
+    def _alarm(signum, frame):
+        raise _ReplayTimeout()
+    old = signal.signal(signal.SIGALRM, _alarm)
+    try:
+        for rec in recs:
+            signal.setitimer(signal.ITIMER_REAL, 20)
+            try:
+                out.append(vmmc.replay(rec, r, **opts))
+            except _ReplayTimeout:
+                # (a behaviour of these families takes milliseconds; TLC explored it to the end)
+                try:
+                    r.uninstall()
+                except Exception:
+                    pass
+                out.append(['the implementation did not terminate within 20 s on a behaviour the specification ends after '
+                            f"{len(rec.get('hist', []))} instructions"])
+            finally:
+                signal.setitimer(signal.ITIMER_REAL, 0)
+    finally:
+        signal.signal(signal.SIGALRM, old)
     return out
 
 
@@ -152,7 +175,12 @@ def check_traces(rep: Report, traces: list, label: str, shards: int = 12):
             step = f['step']
             ev = t['ev'][step - 1] if step <= len(t['ev']) else None
             failed = set(f['failed'].split())
-            if 'exc' in failed and (f.get('expected') or {}).get('exc') in ('PRIMMISS', 'BADHINT'):
+            if 'exc' in failed and (f.get('expected') or {}).get('exc') in ('PRIMMISS', 'BADHINT') and ev and ev.get('op') == 47:
+                # RANDOM: the only "primitive" is the byte string the implementation obtained from token_bytes; if the
+                # specification wants random bytes and none were drawn, the implementation did not allocate where it
+                # must (or refused a size it must accept): a disagreement in the alloc clause, not a harness gap
+                failed = (failed - {'exc'}) | {'alloc', 'exc'}
+            elif 'exc' in failed and (f.get('expected') or {}).get('exc') in ('PRIMMISS', 'BADHINT'):
                 raise tlc.MachineryError(f"reference primitive missing for trace {t['id']} step {step} op "
                                          f"{ev.get('op') if ev else None}")
             name = known_signature(rep.prop, failed, ev, t)
